@@ -432,9 +432,9 @@ theorem inv_receive {b pre epi : Bytes} {parts : List Part} {cfg : Cfg} {cs : Ch
   | done => exact hph
 
 theorem inv_maxHeld {b pre epi : Bytes} {parts : List Part} {cfg : Cfg} {cs : Charset}
-    {pd : List Part} {ph : Phase} {s : HS} {rest : Bytes} (m : Nat)
+    {pd : List Part} {ph : Phase} {s : HS} {rest : Bytes} (m m' : Nat)
     (hinv : Inv b pre epi parts cfg cs pd ph s rest) :
-    Inv b pre epi parts cfg cs pd ph { s with maxHeld := m } rest := by
+    Inv b pre epi parts cfg cs pd ph { s with maxHeld := m, maxHeldData := m' } rest := by
   obtain ⟨hnc, hitems, hn, hpo, hmo, hph⟩ := hinv
   refine ⟨hnc, hitems, hn, hpo, hmo, ?_⟩
   cases ph with
@@ -475,7 +475,7 @@ theorem feedAll_spec {b pre epi : Bytes} {parts : List Part} {cfg : Cfg} {cs : C
       ⟨s', pd', ph', hd, hinv', hend⟩ | ⟨hd, hexp⟩
     · rw [hd]
       simp only
-      exact ih _ pd' ph' (inv_maxHeld _ hinv') (fun hc => hend (by simp [hc]))
+      exact ih _ pd' ph' (inv_maxHeld _ _ hinv') (fun hc => hend (by simp [hc]))
     · rw [hd]
       simp only
       exact hexp.symm
